@@ -104,7 +104,7 @@ def project(c):
             t_by_port = [0, 0, 0, 0]
         m = min(t_by_port)
         t_norm = [t - m for t in t_by_port]
-        if max(t_norm) >= (1 << 31):
+        if max(t_norm) >= (1 << 29):          # sums of three differences must stay below 2^31 in TLC
             big = True
         devs.append(dict(open=[open_by_port[p] for p in POS], times=[t_norm[p] for p in POS], dc=dc))
         if dc:
